@@ -35,6 +35,12 @@ def cases(tier, seed):
             for k, part in enumerate([aseqs[i::4] for i in range(4)]):
                 out.append({"kind": "apply", "N": Na, "G": 3, "ncols": ncols, "masked": masked, "codes_list": [list(c) for c in part],
                             "name": f"GroupBy.apply(user function)/N={Na},G=3/value columns={ncols}/mask={masked}/{len(part)} code sequences (part {k})"})
+    # vector-valued user functions: input-aligned (one value per row of the group) or fixed length; values AND the kind of index chosen
+    for ret in ("aligned", "fixed1", "fixed2"):
+        for masked in (False, True):
+            for k, part in enumerate([aseqs[i::2] for i in range(2)]):
+                out.append({"kind": "apply_vec", "N": Na, "G": 3, "ret": ret, "masked": masked, "codes_list": [list(c) for c in part],
+                            "name": f"GroupBy.apply(vector function: {ret})/N={Na},G=3/mask={masked}/{len(part)} code sequences (part {k})"})
     # transform=True: every row receives its own group's result (labels in any order, unobserved labels, null keys)
     for order in ([0, 1, 2], [2, 0, 1], [1, 2, 0]):
         for masked in (False, True):
@@ -47,6 +53,8 @@ def cases(tier, seed):
 def run_case(E, case):
     if case["kind"] == "var":
         return run_var(E, case)
+    if case["kind"] == "apply_vec":
+        return run_apply_vec(E, case)
     return run_apply(E, case)
 
 
@@ -226,11 +234,145 @@ def run_apply(E, case):
     return res
 
 
+# ------------------------------------------------------------------ apply with vector-valued user functions
+class _MarkIndex(FakeIndex):
+    def __init__(self, n, kind):
+        FakeIndex.__init__(self, n)
+        self.kind = kind
+
+
+def run_apply_vec(E, case):
+    """GroupBy.apply with a user function returning a vector: the concatenated values, and which index the library decides to
+    build - (group, original row) for input-aligned functions, (group, 0..k-1) for fixed-length ones; the decision runs the real
+    util.check_if_func_is_non_reduce probe on the uninterpreted function.  Cuts: the two pandas index builders return markers."""
+    from ..models import LIndex
+    t0 = time.time()
+    N, G, masked, ret = case["N"], case["G"], case["masked"], case["ret"]
+    GB = install_cuts(E)
+    core = E["core"]
+    res = _blank()
+    F = z3.Function("user_vec", z3.IntSort(), z3.IntSort(), *([z3.RealSort()] * N), z3.RealSort())
+    k_fixed = {"aligned": None, "fixed1": 1, "fixed2": 2}[ret]
+
+    def user(sub):
+        cells = sub.cells if isinstance(sub, A) else list(sub)
+        args = [c.v if isinstance(c, SF) else z3.RealVal(c) for c in cells] + [z3.RealVal(0)] * (N - len(cells))
+        if len(args) > N:
+            args = args[:N]                  # the probe may hand a tiled input; only its length matters for the decision
+        n_out = len(cells) if k_fixed is None else k_fixed
+        return A([SF(False, F(z3.IntVal(j), z3.IntVal(len(cells)), *args)) for j in range(n_out)], "float64")
+    saved_expand = core["expand_index_to_new_level"]
+    saved_gsi = GB._build_group_sorted_index
+    core["expand_index_to_new_level"] = lambda index, new_level: _MarkIndex(len(index) * len(new_level), "fixed")
+    GB._build_group_sorted_index = lambda self, inner_index=None: _MarkIndex(len(self), "group_sorted")
+    try:
+        for codes in case["codes_list"]:
+            masks = [None] if not masked else [m for m in itertools.product([True, False], repeat=N)][1::3]
+            for mbits in masks:
+                inp = Inputs()
+                col = inp.floats("v0_", N, nullable=False)
+                inp.vars["k"] = ("const", list(codes), "int64")
+                if mbits is not None:
+                    inp.vars["mask"] = ("const", [int(b) for b in mbits], "int64")
+                rt = fresh_runtime()
+                rt.size_hints = [sum(1 for c in codes if c >= 0)]
+                gb = make_gb(E, G, codes=A(list(codes), "int64"))
+                gb._result_index = LIndex(list(range(G)), "key")
+                vals = A(col, "float64").tag("input:values")
+                mask = A(list(mbits), "bool").tag("input:mask") if mbits is not None else None
+                extra = {"codes": list(codes), "mask": list(mbits) if mbits is not None else None}
+                sel = [codes[i] >= 0 and (mbits is None or mbits[i]) for i in range(N)]
+                groups = [g for g in range(G) if any(sel[i] and codes[i] == g for i in range(N))]
+                try:
+                    out = gb.apply(vals, user, mask)
+                except (Unsupported, OutsideModel):
+                    raise
+                except Exception as e:      # noqa: BLE001
+                    from ..runtime import _model_gap
+                    if _model_gap(e):
+                        raise Unsupported("model gap: " + _model_gap(e)) from e
+                    if not groups:
+                        continue             # nothing selected: whatever happens is outside the statement
+                    res["verdict"] = "sat"
+                    res["subcases"] += 1
+                    if len(res["candidates"]) < 4:
+                        res["candidates"].append({"signature": f"{PROP}:raises:{type(e).__name__}:apply_vec:{ret}",
+                                                  "case": dict({k: v for k, v in case.items() if k != "codes_list"}, **extra),
+                                                  "inputs": {"v0_": [float(i + 1) for i in range(N)]}, "kind": "raises",
+                                                  "labels": [f"{type(e).__name__}: {str(e)[:150]}"]})
+                    continue
+                if not groups:
+                    continue
+                ser = out[out.columns[0]] if isinstance(out, FakeFrame) else out
+                arr = ser.arr if isinstance(ser, FakeSeries) else ser
+                cells = arr.cells if isinstance(arr, A) else list(arr)
+                exp = []
+                for g in groups:
+                    mem = [col[i] for i in range(N) if sel[i] and codes[i] == g]
+                    exp.extend(user(A(mem, "float64")).cells)
+                bl = []
+                if len(cells) != len(exp):
+                    bl.append((f"{len(cells)} values returned, {len(exp)} expected", True))
+                else:
+                    for j, (a, b) in enumerate(zip(cells, exp)):
+                        bl.append((f"value {j} of the concatenated per-group results", b_not(same(SF.of(a), b))))
+                kind = getattr(getattr(ser, "index", None), "kind", None)
+                want = "group_sorted" if k_fixed is None else "fixed"
+                if kind != want:
+                    bl.append((f"index kind {kind!r} chosen for a {ret} function (expected {want!r})", True))
+                dec = decide(inp, bl, rt)
+                _merge(res, dec, case, extra, f"apply_vec:{ret}:mask={masked}")
+    finally:
+        core["expand_index_to_new_level"] = saved_expand
+        GB._build_group_sorted_index = saved_gsi
+    res["symex_s"] = time.time() - t0 - res["solver_s"]
+    res["encoded"] = sorted(E.encoded) + ["groupby_lib/groupby/core.py::apply", "groupby_lib/util.py::check_if_func_is_non_reduce"]
+    res["witnesses"] = {f"{res['subcases']} (code sequence, mask) pairs decided": True}
+    return res
+
+
+def replay_vec(case, conc):
+    from . import c03 as C3
+    N, G, ret = case["N"], case["G"], case["ret"]
+    codes = case["codes"]
+    gb = C3.real_gb(G, codes=codes)
+    vals = real_np.array([float(x) for x in conc["v0_"]])
+    mask = real_np.array(case["mask"], dtype=bool) if case.get("mask") is not None else None
+    fn = {"aligned": lambda a: a * 2.0 + real_np.arange(len(a)),
+          "fixed1": lambda a: real_np.array([a.sum() + 0.5 * a[0]]),
+          "fixed2": lambda a: real_np.array([a.sum(), a[0] - a[-1]])}[ret]
+    sel = [codes[i] >= 0 and (mask is None or mask[i]) for i in range(N)]
+    groups = [g for g in range(G) if any(sel[i] and codes[i] == g for i in range(N))]
+    try:
+        out = gb.apply(vals, fn, mask)
+    except Exception as e:      # noqa: BLE001
+        return True, f"real call raised {type(e).__name__}: {e}"
+    exp_vals, exp_inner = [], []
+    for g in groups:
+        rows = [i for i in range(N) if sel[i] and codes[i] == g]
+        r = fn(vals[rows])
+        exp_vals.extend(float(x) for x in r)
+        exp_inner.extend(rows if ret == "aligned" else range(len(r)))
+    got_vals = [float(x) for x in real_np.asarray(out, dtype=float).ravel()]
+    problems = []
+    if len(got_vals) != len(exp_vals) or any(not approx_same(a, b) for a, b in zip(got_vals, exp_vals)):
+        problems.append(f"values {got_vals} != {exp_vals}")
+    try:
+        inner = [int(x) for x in out.index.get_level_values(out.index.nlevels - 1)]
+    except Exception as e:      # noqa: BLE001
+        inner = f"unreadable ({type(e).__name__})"
+    if inner != [int(x) for x in exp_inner]:
+        problems.append(f"inner index level {inner} != {list(exp_inner)} ({'original row of every value' if ret == 'aligned' else 'position within the fixed-length result'})")
+    return bool(problems), {"problems": problems, "codes": codes, "mask": case.get("mask")}
+
+
 # ------------------------------------------------------------------ replay through the public API
 def replay(case, conc, cand=None):
     import pandas as pd
     from groupby_lib import GroupBy
     conc = fix_nans(conc)
+    if case.get("kind") == "apply_vec":
+        return replay_vec(case, conc)
     N, G = case["N"], case["G"]
     codes = case["codes"]
     keys = pd.Series([float(c) if c >= 0 else float("nan") for c in codes] + [float(g) for g in range(G)])
